@@ -2,6 +2,7 @@ package align
 
 import (
 	"fmt"
+	"math"
 	"unicode"
 )
 
@@ -166,6 +167,11 @@ func (a *pwaligner) fillMatrix_SW() (err error) {
 	var c1, c2 uint8
 	var indexseq1, indexseq2 []int // convert characters to subst matrix positions
 
+	if a.seq1.Length() == 0 || a.seq2.Length() == 0 {
+		err = fmt.Errorf("cannot align an empty sequence")
+		return
+	}
+
 	a.initMatrix(a.seq1.Length(), a.seq2.Length())
 
 	// We convert characters to indices in subst matrices
@@ -180,85 +186,30 @@ func (a *pwaligner) fillMatrix_SW() (err error) {
 	l1 = a.seq1.Length()
 	l2 = a.seq2.Length()
 
-	// We initialize first row and first column of the matrix
+	// A local alignment may start at any cell: cells outside of the matrix
+	// count for 0, and no gap is opened yet on the borders (-Inf), so that
+	// the first row and the first column follow the same recurrence
+	// as all other cells
 	var match, fnew float64
-
-	// First row
 	for j := 0; j < l2; j++ {
-		c1 = a.seq1.CharAt(0)
-		c2 = a.seq2.CharAt(j)
-		match = a.matchScore(c1, c2, indexseq1[0], indexseq2[j])
-		fnew = 0.0
-		if j > 0 {
-			fnew = a.matrix[0][j-1]
-			if a.trace[0][j-1] == ALIGN_LEFT {
-				fnew += a.gapextend
-			} else {
-				fnew += a.gapopen
-			}
-		}
-		if match > fnew && match > .0 {
-			a.matrix[0][j] = match
-			a.trace[0][j] = ALIGN_DIAG
-		} else if fnew > .0 {
-			a.matrix[0][j] = fnew
-			a.trace[0][j] = ALIGN_LEFT
-		} else {
-			a.matrix[0][j] = 0.0
-			a.trace[0][j] = ALIGN_DIAG // TO REVIEW
-		}
-
-		if j > 0 {
-			a.maxa[j] = a.matrix[0][j]
-			if a.trace[0][j-1] == ALIGN_LEFT {
-				a.maxa[j] += a.gapextend
-			} else {
-				a.maxa[j] += a.gapopen
-			}
-		} else {
-			a.maxa[j] = a.matrix[0][j] + a.gapopen
-		}
-	}
-
-	// First column
-	for i := 0; i < l1; i++ {
-		c1 = a.seq1.CharAt(i)
-		c2 = a.seq2.CharAt(0)
-		match = a.matchScore(c1, c2, indexseq1[i], indexseq2[0])
-
-		fnew = 0.0
-		if i > 0 {
-			fnew = a.matrix[i-1][0]
-			if a.trace[i-1][0] == ALIGN_UP {
-				fnew += a.gapextend
-			} else {
-				fnew += a.gapopen
-			}
-		}
-		if match > fnew && match > .0 {
-			a.matrix[i][0] = match
-			a.trace[i][0] = ALIGN_DIAG
-		} else if fnew > 0 {
-			a.matrix[i][0] = fnew
-			a.trace[i][0] = ALIGN_UP
-		} else {
-			a.matrix[i][0] = 0.0
-			a.trace[i][0] = ALIGN_DIAG // TO REVIEW
-		}
+		a.maxa[j] = math.Inf(-1)
 	}
 
 	// Each line
-	for i := 1; i < l1; i++ {
+	for i := 0; i < l1; i++ {
 		c1 = a.seq1.SequenceChar()[i]
 		// Temp value for max left gap extensions of this line
-		bx := a.matrix[i][0] + a.gapopen + a.gapextend
+		bx := math.Inf(-1)
 		// Each column
-		for j := 1; j < l2; j++ {
+		for j := 0; j < l2; j++ {
 			c2 = a.seq2.SequenceChar()[j]
 			match = a.matchScore(c1, c2, indexseq1[i], indexseq2[j])
 
 			// diag score
-			mscore := a.matrix[i-1][j-1] + match
+			mscore := match
+			if i > 0 && j > 0 {
+				mscore += a.matrix[i-1][j-1]
+			}
 			a.trace[i][j] = ALIGN_DIAG
 			a.matrix[i][j] = mscore
 
@@ -267,10 +218,12 @@ func (a *pwaligner) fillMatrix_SW() (err error) {
 			// either gap opening or gap extention
 			// without re looping over 0-i
 			a.maxa[j] += a.gapextend
-			fnew = a.matrix[i-1][j]
-			fnew += a.gapopen
-			if fnew > a.maxa[j] {
-				a.maxa[j] = fnew
+			if i > 0 {
+				fnew = a.matrix[i-1][j]
+				fnew += a.gapopen
+				if fnew > a.maxa[j] {
+					a.maxa[j] = fnew
+				}
 			}
 			if a.maxa[j] > mscore {
 				mscore = a.maxa[j]
@@ -283,10 +236,12 @@ func (a *pwaligner) fillMatrix_SW() (err error) {
 			// either gap opening or gap extention
 			// without re looping over 0-j
 			bx += a.gapextend
-			fnew = a.matrix[i][j-1]
-			fnew += a.gapopen
-			if fnew > bx {
-				bx = fnew
+			if j > 0 {
+				fnew = a.matrix[i][j-1]
+				fnew += a.gapopen
+				if fnew > bx {
+					bx = fnew
+				}
 			}
 			if bx > mscore {
 				mscore = bx
@@ -424,7 +379,7 @@ func (a *pwaligner) backTrack_SW() {
 				j--
 			}
 		}
-		if i > 0 && j > 0 && a.matrix[i][j] <= .0 && a.algo != ALIGN_ALGO_ATG {
+		if i >= 0 && j >= 0 && a.matrix[i][j] <= .0 && a.algo != ALIGN_ALGO_ATG {
 			break
 		}
 	}
